@@ -311,8 +311,9 @@ def block_of(idxs):
 
 
 def uniq_objs(t):
-    """the objects of a term as the code's sort functions see them: a power of an object is ONE object (the exporter lists
-    it exponent times; sympy cannot hold the same object twice in a product without merging it into a power)"""
+    """the objects of a term as by_tensor_target_block / by_tensor_target_indices see them: a power of an object is ONE
+    entry of the key (the exporter lists it exponent times; sympy cannot hold the same object twice in a product without
+    merging it into a power).  by_delta_types / by_delta_indices / by_tensor_block repeat the entry exponent times."""
     out = []
     for o in t[1]:
         if o not in out:
@@ -321,17 +322,17 @@ def uniq_objs(t):
 
 
 def key_delta_types(t):
-    k = tuple(sorted(block_of(obj_idx_list(o)) for o in uniq_objs(t) if o[0] == "D"))
+    k = tuple(sorted(block_of(obj_idx_list(o)) for o in t[1] if o[0] == "D"))
     return k or ("none",)
 
 
 def key_delta_indices(t):
-    k = tuple(sorted("".join(idx_str(i) for i in obj_idx_list(o)) for o in uniq_objs(t) if o[0] == "D"))
+    k = tuple(sorted("".join(idx_str(i) for i in obj_idx_list(o)) for o in t[1] if o[0] == "D"))
     return k or ("none",)
 
 
 def key_tensor_block(t, name):
-    k = tuple(sorted(block_of(obj_idx_list(o)) for o in uniq_objs(t) if o[0] == "T" and o[2] == name))
+    k = tuple(sorted(block_of(obj_idx_list(o)) for o in t[1] if o[0] == "T" and o[2] == name))
     return k or ("none",)
 
 
